@@ -2511,13 +2511,19 @@ impl<'a, R: FileManager> FrontendCtx<'a, R> {
     ) -> Res<Runtype> {
         let mut vs = vec![];
         let module = self.get_or_fetch_file(bff_file_name, anchor)?;
-        for (name, sym) in &module.symbol_exports.named_values {
+        // the export tables are hash maps: visit them by name, so that the first error reported (and
+        // the order in which nested types are discovered) does not depend on the hash seed
+        let mut named_values: Vec<_> = module.symbol_exports.named_values.iter().collect();
+        named_values.sort_by(|a, b| a.0.cmp(b.0));
+        for (name, sym) in named_values {
             let v = self.extract_sym_export_as_value(sym, anchor)?;
             if let Some(v) = v {
                 vs.push((name.clone(), v.required()));
             }
         }
-        for (name, sym) in &module.symbol_exports.named_unknown {
+        let mut named_unknown: Vec<_> = module.symbol_exports.named_unknown.iter().collect();
+        named_unknown.sort_by(|a, b| a.0.cmp(b.0));
+        for (name, sym) in named_unknown {
             let v = self.extract_sym_export_as_value(sym, anchor)?;
             if let Some(v) = v {
                 vs.push((name.clone(), v.required()));
